@@ -343,7 +343,9 @@ def c03_jobs(tier):
     pats = _pats(n, tier, True)
     for fi, (dk, sk) in enumerate(fams):
         kinds = (dk, sk)
-        lean = quick and fi > 0  # Real64 in quick: the operations whose derivative handling differs
+        # lean: in quick Real64 runs only the operations whose derivative handling differs;
+        # in thorough the 32-bit families (same template text) do
+        lean = (quick and fi > 0) or (not quick and fi >= 2)
         for op in range(14):
             if lean and op not in (0, 2, 3, 6, 8, 10, 13):
                 continue
@@ -706,7 +708,7 @@ PROPS["C04"] = {
     "jobs": c04_jobs,
     "reach": ["gj-returned", "inverse-returned", "backsub-returned", "det-returned", "pivots", "pivots-fp", "pd-reuse"],
     "replay_tol": 1e-6,
-    "job_budget_ms": {"quick": 150000, "thorough": 1500000},
+    "job_budget_ms": {"quick": 150000, "thorough": 600000},
     "selftest_vars": [],
     "bounds": {"quick": "Gauss-Jordan, matrixInverse (default / positive-definite / upper-triangular / caller-supplied in-situ buffers), back substitution, determinant on fully symbolic 1x1 and 2x2 (3x3: Gauss-Jordan, back substitution, determinant) "
                         "Float64 and Real64 matrices, every pivot path; every pivot order at n=3,4 on permuted diagonal matrices; real interpretation, fraction-lifted NRA",
@@ -753,7 +755,7 @@ PROPS["C05"] = {
     "jobs": c05_jobs,
     "reach": ["cholesky-returned", "forcepd-returned", "forcepd-graded", "gs-returned", "givens", "C05-qrstep"],
     "replay_tol": 1e-6,
-    "job_budget_ms": {"quick": 150000, "thorough": 1500000},
+    "job_budget_ms": {"quick": 150000, "thorough": 600000},
     "selftest_vars": [],
     "bounds": {"quick": "Cholesky and LDL on fully symbolic symmetric 2x2 and 3x3 Float64/Real64 matrices (with and without caller-supplied buffers holding other values), forced-PD LDL structure/positivity on symbolic 2x2 and "
                         "reconstruction on three concrete graded safely-PD matrices, Gram-Schmidt on symbolic 2x2, Givens rotation on a symbolic pair; one implicit symmetric QR step (unexported symmetricQRstep, in-package harness) on symbolic tridiagonal 2x2 and 3x3 states with the active block at the top, "
@@ -792,7 +794,7 @@ PROPS["C06"] = {
     "jobs": c06_jobs,
     "reach": ["fastgeneric", "derivative", "magicvalues"],
     "replay_tol": 1e-6,
-    "job_budget_ms": {"quick": 150000, "thorough": 1500000},
+    "job_budget_ms": {"quick": 150000, "thorough": 600000},
     "selftest_vars": [],
     "bounds": {"quick": "fast path = generic path for Cholesky (plain, LDL, forced PD) and Gauss-Jordan (+ upper triangular) on symbolic 2x2 and 3x3 inputs, fp interpretation (UF-first then bit-precise), every pivot / rejection path; "
                         "derivative identities with one symbolic parameter: inverse, Cholesky, MdotM on 2x2, determinant on 2x2 and 3x3 (real interpretation)",
@@ -827,7 +829,7 @@ PROPS["C01"] = {
     "jobs": c01_jobs,
     "reach": ["scalar-spec", "derivative-range"],
     "replay_tol": 1e-6,
-    "job_budget_ms": {"quick": 120000, "thorough": 900000},
+    "job_budget_ms": {"quick": 120000, "thorough": 400000},
     "selftest_vars": [],
     "bounds": {"quick": "one operation applied to operands with fully symbolic jets (inductive step over expression DAGs): 27 elementary operations of Real64, N=2, order 2, magic and constant operands; "
                         "gradient and Hessian slots equal the chain rule applied to the textbook partial derivatives written in the harness; Hessian symmetry; real interpretation with libm heads uninterpreted plus lemma instances",
@@ -867,7 +869,7 @@ PROPS["C02"] = {
     "jobs": c02_jobs,
     "reach": ["scalar-spec", "mixed", "int", "convert", "range"],
     "replay_tol": 1e-6,
-    "job_budget_ms": {"quick": 120000, "thorough": 900000},
+    "job_budget_ms": {"quick": 120000, "thorough": 400000},
     "selftest_vars": [],
     "bounds": {"quick": "mixed-type operand pairs (ConstInt, ConstInt8, ConstFloat32, ConstFloat64, Int, Float32, Real64, ConstInt64) for Min/Max/Add/Sub/Mul/Greater/Smaller on Real64 and Float64 receivers (fp, bit-vector ints); Int/Int8/Int32 ring operations, comparisons, sign, min, max, abs against Go's operators on fully symbolic bit-vector operands; ConvertScalar/ConvertConstScalar between the float types; value of 27 elementary Real64 operations equals the named function written in the harness over the same libm heads, on every branch of the piecewise definitions, with and without derivative tracking; real interpretation",
                "thorough": "also Real32"},
@@ -943,7 +945,7 @@ PROPS["C15"] = {
     "jobs": c15_jobs,
     "reach": ["logpdf", "marginals", "viterbi", "C15-float64fb"],
     "replay_tol": 1e-6,
-    "job_budget_ms": {"quick": 120000, "thorough": 900000},
+    "job_budget_ms": {"quick": 120000, "thorough": 400000},
     "selftest_vars": [],
     "bounds": {"quick": "generic.Hmm with m<=2 states and sequences of length n<=3: symbolic log initial / transition / emission values, zero-probability transitions as -Inf patterns, shared emission maps, final-state restriction; "
                         "LogPdf = log of the sum over all m^n hidden paths, posterior marginal x likelihood = mass of the paths through the state, marginals sum to one, the Viterbi path has maximal joint probability; the float64 forward-backward tables of Baum-Welch (hmm_optimized, in-package harness) equal the generic ones for sequences of length 1..3 in buffers "
@@ -982,7 +984,7 @@ PROPS["C16"] = {
     "jobs": c16_jobs,
     "reach": ["score", "bounds", "C16-emstep"],
     "replay_tol": 1e-6,
-    "job_budget_ms": {"quick": 120000, "thorough": 900000},
+    "job_budget_ms": {"quick": 120000, "thorough": 400000},
     "selftest_vars": [],
     "bounds": {"quick": "closed-form scalar estimators Normal, Exponential, Poisson on 1..3 symbolic observations with and without symbolic positive weights: the returned parameters satisfy the score equations of the weighted log-likelihood; "
                         "configured bounds (SigmaMin, LambdaMax) are respected and only active when the unconstrained estimate lies beyond them; single-thread pool; real interpretation, exp-homomorphism, LogAdd summarised",
@@ -1016,7 +1018,7 @@ PROPS["C17"] = {
     "jobs": c17_jobs,
     "reach": ["pool"],
     "replay_tol": 1e-6,
-    "job_budget_ms": {"quick": 120000, "thorough": 900000},
+    "job_budget_ms": {"quick": 120000, "thorough": 400000},
     "selftest_vars": [],
     # natively the real pool runs and float sums are grouped by the scheduler's
     # assignment, the executor groups them by symbolic thread ids: no bit-exact
@@ -1054,7 +1056,7 @@ PROPS["C07"] = {
     "jobs": c07_jobs,
     "reach": ["gd-returned", "rprop-returned", "linesearch-returned"],
     "replay_tol": 1e-9,
-    "job_budget_ms": {"quick": 150000, "thorough": 900000},
+    "job_budget_ms": {"quick": 150000, "thorough": 400000},
     "selftest_vars": [],
     "bounds": {"quick": "gradient descent (about 3 iterations by the step bound), Rprop (iteration caps 2, 3) and the strong-Wolfe line search (evaluation caps 2, 3) in dimension 1 with an uninterpreted objective (value and derivative are uninterpreted functions of the point), "
                         "symbolic start, step and epsilon: on every path that returns before the cap the stopping predicate holds when re-evaluated at the returned point, hooks receive value and gradient of the point passed with them, the start vector is unchanged",
